@@ -1218,7 +1218,7 @@ func (m *Model) readFile(c *Conn, r Req, what string) error {
 		return nil
 	}
 	if m.ro.kind != roObj {
-		// {-1 header alone | connection ended without stray bytes}
+		// -1 header alone (with fault injection also: connection ended without stray bytes)
 		data, closed, err := c.ReadN(4)
 		if err != nil {
 			return err
@@ -1228,6 +1228,11 @@ func (m *Model) readFile(c *Conn, r Req, what string) error {
 				return failf("ends-connection", "%s without readable object: %d stray bytes %x", what, len(data), data)
 			}
 			m.Ended = true
+			if m.Lenient == nil {
+				// only malformed, truncated and unknown requests and unsatisfiable critical reads end a connection: the
+				// ordinary read has a result code for "cannot be read"
+				return failf("reply-code", "%s without readable object: the connection was ended instead of the answer -1", what)
+			}
 			return nil
 		}
 		if k := int32(be32(data)); k != -1 && !(k == 0 && (r.N == 0 || m.ro.kind == roObj)) {
